@@ -494,6 +494,8 @@ class AsyncBareSource:
         if st.closed:
             st.pull_after_close = True
             raise StopAsyncIteration
+        if st.ended:  # re-polling an exhausted source: not an event, no suspension
+            raise StopAsyncIteration
         st.started = True
         st.active += 1
         if st.active > 1:
